@@ -865,6 +865,22 @@ fn decode_stream(r: &Rng, out: &mut Out, n: usize, with_leaf: bool) {
             }
         }
     }
+    // every attribute number 0..=41 with values at the sizes where a length field changes shape or a cap could sit:
+    // around 255/256, 511/512, and the top of the range (1014..=1017 = the largest value an AVP can carry), as
+    // octets any kind takes (ASCII letters), plain and with the H bit, bare and inside a message
+    for attr in 0..=41u16 {
+        for vl in [249usize, 250, 251, 255, 256, 257, 505, 506, 507, 511, 512, 1000, 1013, 1014, 1015, 1016, 1017] {
+            let payload: Vec<u8> = (0..vl).map(|i| 0x41 + (i % 26) as u8).collect();
+            for fl in [1u8, 3] {
+                let rec = record(fl, 0, attr, &payload);
+                out.push(format!("avps {}", hex(&rec)));
+                if vl >= 1013 || vl == 256 {
+                    let img = assemble(0x1320, 1, 2, 3, 4, &[mt_record(r), rec]);
+                    out.push(format!("dec 111 {}", hex(&img)));
+                }
+            }
+        }
+    }
     // data messages over the 16 L/S/O/P combinations, length field around the truth, offsets
     for bits in 0..16u16 {
         let (l, s, o, p) = (bits & 1 != 0, bits & 2 != 0, bits & 4 != 0, bits & 8 != 0);
